@@ -21,7 +21,8 @@ func cfgOf(p *spec.Program) parser.CommandConfig {
 	for name, av := range p.AutoVars {
 		if av.ArgPos >= 0 {
 			pos := av.ArgPos
-			c.AutoVarCommands[name] = parser.AutoVarCommand{VarNameArgPosition: &pos}
+			// (a configured position wins over a var_name given as well)
+			c.AutoVarCommands[name] = parser.AutoVarCommand{VarName: av.VarName, VarNameArgPosition: &pos}
 		} else {
 			c.AutoVarCommands[name] = parser.AutoVarCommand{VarName: av.VarName}
 		}
